@@ -39,6 +39,16 @@ def bounded(sp, cfg):
     return True
 
 
+def init_parallelism():
+    """`threads = 0` means the available parallelism: ask the standard library what that is here."""
+    try:
+        from . import purecheck
+        bins = build.build("release", ["puredrv"])
+        TG.PARALLELISM = int(purecheck.ask(bins["puredrv"], ["K"])[0])
+    except Exception:
+        pass
+
+
 def make_jobs(prop, tier, seed):
     rng = random.Random(seed * 50021 + int(prop[1:]))
     prof = PROFILES[prop]
@@ -69,6 +79,7 @@ def replay_payload(sp, cfg, res):
 
 
 def run_jobs(prop, jobs, out, want=None, extra=None):
+    init_parallelism()
     bins = build.build("native", ["treedrv"])
     exe = bins["treedrv"]
 
